@@ -8,6 +8,7 @@ import (
 
 	"verifharness/hx"
 
+	"github.com/iotaledger/hive.go/ds/shrinkingmap"
 	"github.com/iotaledger/hive.go/runtime/options"
 	sm "github.com/iotaledger/hive.go/web/subscriptionmanager"
 )
@@ -245,7 +246,7 @@ func (w *smWorld) exec(f []string) string {
 				m[t]++
 				w.multi++
 				want = true
-			case w.limit != 0 && len(m)+1 >= w.limit:
+			case w.limit != 0 && len(m)+1 >= w.limit: // also for a negative limit
 				// forced drop: the client and everything it held goes away
 				delete(w.subs, c)
 				w.drops++
@@ -281,6 +282,48 @@ func (w *smWorld) exec(f []string) string {
 		w.check("Unsubscribe", false)
 
 		return w.answer(strconv.FormatBool(got))
+	case "state":
+		// the two maps with their counts (the exported API only shows presence): subscribers must equal the abstract
+		// per-client counts and topics[t] must be the sum over the clients
+		return stateOf(func() string {
+			type inner = shrinkingmap.ShrinkingMap[int, int]
+			subs := fieldAs[*shrinkingmap.ShrinkingMap[int, *inner]](w.m, "subscribers").AsMap()
+			topics := fieldAs[*shrinkingmap.ShrinkingMap[int, int]](w.m, "topics").AsMap()
+			limit := fieldAs[int](w.m, "maxTopicSubscriptionsPerClient")
+			cs := make([]int, 0, len(subs))
+			for c := range subs {
+				cs = append(cs, c)
+			}
+			sort.Ints(cs)
+			parts := make([]string, 0, len(cs))
+			sums := map[int]int{}
+			okSubs := len(subs) == len(w.subs)
+			for _, c := range cs {
+				m := subs[c].AsMap()
+				parts = append(parts, fmt.Sprintf("%d:%s", c, kvs(m)))
+				want, has := w.subs[c]
+				if !has || kvs(m) != kvs(want) {
+					okSubs = false
+				}
+				if limit != 0 && len(m)+1 > limit && len(m) > 0 {
+					w.fail("keyed-store", fmt.Sprintf("client %d holds %d topics with a limit of %d", c, len(m), limit), w.sig("state", "over-limit", false))
+				}
+			}
+			for _, m := range w.subs {
+				for t, n := range m {
+					sums[t] += n
+				}
+			}
+			ans := fmt.Sprintf("limit=%d subs=[%s] topics=%s", limit, strings.Join(parts, " "), kvs(topics))
+			if !okSubs {
+				w.fail("keyed-store", fmt.Sprintf("subscribers map %s, abstract per-client counts %v", ans, w.subs), w.sig("state", "subscribers", false))
+			}
+			if kvs(topics) != kvs(sums) {
+				w.fail("topic-count-sum", fmt.Sprintf("topics map %s, sums over the clients %s", kvs(topics), kvs(sums)), w.sig("state", "topic-count", false))
+			}
+
+			return ans
+		})
 	case "has":
 		t, _ := strconv.Atoi(f[1])
 
@@ -306,6 +349,8 @@ var smContainer = container{
 		limit := rng.Intn(4)
 		if rng.Chance(1, 8) {
 			limit = rng.Range(4, 6)
+		} else if rng.Chance(1, 30) {
+			limit = -rng.Range(1, 3) // a negative limit is "reached" by every new topic
 		}
 		first := fmt.Sprintf("sm new %d opt %d %s", limit, rng.Intn(4), hx.Pick(rng, []string{"0", "0.5", "1"}))
 		if limit == 0 && rng.Chance(1, 3) {
@@ -335,17 +380,21 @@ var smContainer = container{
 			default:
 				ops = append(ops, "sm sizes")
 			}
+			if rng.Chance(1, 3) {
+				ops = append(ops, "sm state")
+			}
 		}
+		ops = append(ops, "sm state")
 		for c := 0; c < smClients; c++ {
 			ops = append(ops, fmt.Sprintf("sm disconnect %d", c))
 		}
-		ops = append(ops, "sm sizes")
+		ops = append(ops, "sm sizes", "sm state")
 
 		return ops
 	},
 	corpus: [][]string{
 		// DESIGN.md section 7: the limit path takes away another client's topic count
-		{"sm new 2 opt 0 0", "sm connect 1", "sm sub 1 3", "sm connect 2", "sm sub 2 3", "sm sub 2 4", "sm has 3", "sm csub 1 3", "sm sizes", "sm unsub 1 3", "sm sizes"},
+		{"sm new 2 opt 0 0", "sm connect 1", "sm sub 1 3", "sm connect 2", "sm sub 2 3", "sm sub 2 4", "sm has 3", "sm csub 1 3", "sm sizes", "sm state", "sm unsub 1 3", "sm sizes", "sm state"},
 		{"sm new 1 opt 0 0", "sm connect 1", "sm connect 2", "sm sub 1 3", "sm sub 1 3", "sm has 3", "sm sub 2 3", "sm has 3", "sm sizes"},
 		{"sm new 3 opt 2 0.5", "sm connect 0", "sm sub 0 1", "sm sub 0 1", "sm sub 0 2", "sm connect 1", "sm sub 1 1", "sm connect 0", "sm sizes",
 			"sm sub 0 1", "sm sub 0 2", "sm sub 0 3", "sm sizes", "sm has 1", "sm unsub 1 1", "sm unsub 1 1", "sm disconnect 1", "sm disconnect 1", "sm sizes"},
